@@ -12,7 +12,8 @@ keys, `G<hex>` MinerGate blob.
 * `c16_parse <hex>` → `<ok|err> <n> <dump> pre=<dump of the fields before the first failure> | txkey=<hex|none> addkeys=<k>:<hex>|none`
 * `c16_ser <dump>` → hex of `RawExtraField::from(ExtraField(fields))` (`err` if the dump does not denote a value:
   invalid key, padding > 255, depth ≥ 2^64; `PANIC` if the conversion's `unwrap` would fail)
-* `c16_subfield <hex>` → `ok <dump>` | `err` (strict `deserialize::<SubField>`) -/
+* `c16_subfield <hex>` → `ok <dump>` | `err` (strict `deserialize::<SubField>`)
+* `c16_rawparse <hex>` → `<n> <dump>` of `RawExtraField::try_parse` (model `rawTryParse`) -/
 namespace Drv.C16
 
 /-- `PublicKey::from_slice` acceptance by the reference curve arithmetic: decodes, and re-encodes to the same bytes -/
@@ -83,6 +84,9 @@ def stepC16 : Step
   | ["c16_parse", h] => some (showParsed (tryParse edValid (Hex.decode h)), "-")
   | ["c16_subfield", h] =>
     some ((match subFieldStrict edValid (Hex.decode h) with | some sf => "ok " ++ dumpField sf | none => "err"), "-")
+  | ["c16_rawparse", h] =>
+    let fs := rawTryParse edValid (Hex.decode h)
+    some (s!"{fs.length} {dump fs}", "-")
   | ["c16_subfield_rt", d, suf] =>
     -- C02 for the sub-field codec: bytes, reported length, partial parse of bytes ++ suffix, strict parse of bytes
     match parseField d with
